@@ -25,7 +25,37 @@ func fieldLoadOf(v ssa.Value, recv ssa.Value, name string) bool {
 		return false
 	}
 	st := fa.X.Type().Underlying().(*types.Pointer).Elem().Underlying().(*types.Struct)
-	return st.Field(fa.Field).Name() == name
+	return fieldRole(st, fa.Field) == name
+}
+
+// fieldRole names a field of the byte-buffer struct by what it is, not by how it is spelled: "buf" is the
+// only []byte field, "off" the only integer field (the read offset). With more than one candidate the
+// declared names decide.
+func fieldRole(st *types.Struct, idx int) string {
+	nBytes, nInt := 0, 0
+	for i := 0; i < st.NumFields(); i++ {
+		switch t := st.Field(i).Type().Underlying().(type) {
+		case *types.Slice:
+			if b, ok := t.Elem().Underlying().(*types.Basic); ok && b.Kind() == types.Uint8 {
+				nBytes++
+			}
+		case *types.Basic:
+			if t.Info()&types.IsInteger != 0 {
+				nInt++
+			}
+		}
+	}
+	switch t := st.Field(idx).Type().Underlying().(type) {
+	case *types.Slice:
+		if b, ok := t.Elem().Underlying().(*types.Basic); ok && b.Kind() == types.Uint8 && nBytes == 1 {
+			return "buf"
+		}
+	case *types.Basic:
+		if t.Info()&types.IsInteger != 0 && nInt == 1 {
+			return "off"
+		}
+	}
+	return st.Field(idx).Name()
 }
 
 // available: v == len(recv.buf) - recv.off
@@ -121,7 +151,7 @@ func ruleB5(p *Prog) *RuleResult {
 						continue
 					}
 					st := fa.X.Type().Underlying().(*types.Pointer).Elem().Underlying().(*types.Struct)
-					if st.Field(fa.Field).Name() != "off" {
+					if fieldRole(st, fa.Field) != "off" {
 						continue
 					}
 					add, ok := x.Val.(*ssa.BinOp)
